@@ -1,10 +1,18 @@
 //! C42 — immutable-DB reads return exactly the requested chain suffix.
-//! GRID, complete over start points: every contiguous subset of the three
-//! test chunk triplets is copied into a scratch DB; `read_blocks`, `get_tip`
-//! and `read_blocks_from_point` (every block as exact point, fuzzy slots,
-//! absent exact points) are compared with a reference block list obtained by
+//! GRID, complete over start points: every contiguous subset of a chunk
+//! sequence is laid out as a scratch DB; `read_blocks`, `get_tip` and
+//! `read_blocks_from_point` (every block as exact point, fuzzy slots, absent
+//! exact points) are compared with a reference block list obtained by
 //! splitting the chunk files at CBOR item boundaries (see `db.rs`).
+//! Three database families:
+//! * Shelley: the three test chunk triplets of /repo/test_data;
+//! * Byron: synthetic chunks, one per epoch, each starting with an epoch
+//!   boundary block (see `byron.rs`); one chunk holds a main block in the same
+//!   slot as its EBB (reference order: EBB first);
+//! * Mixed: the Byron chunks followed by the Shelley triplets, every
+//!   contiguous subset crossing the era boundary.
 
+use crate::byron;
 use crate::db::{self, RefChunk, Scratch};
 use mc_core::{catch, cov, json, Ctx, Level, Value};
 use pallas_hardano::storage::immutable::{self, Point};
@@ -19,10 +27,18 @@ struct BRef {
     block: usize,
 }
 
+#[derive(Clone, Copy, PartialEq, Eq, Debug)]
+enum Family {
+    Shelley,
+    Byron,
+    Mixed,
+}
+
 struct Db {
     label: String,
     names: Vec<String>,
     dir: PathBuf,
+    family: Family,
     /// blocks of all chunks but the last (the immutable ones), in order
     imm: Vec<BRef>,
     /// blocks of the last (volatile, never served) chunk
@@ -57,10 +73,18 @@ enum Outcome {
 }
 
 struct Fixture {
+    /// the Byron chunks (`..nb`) followed by the Shelley-family triplets
     chunks: Vec<RefChunk>,
+    nb: usize,
 }
 
 impl Fixture {
+    fn byron(&self, r: BRef) -> bool {
+        r.chunk < self.nb
+    }
+    fn ebb(&self, r: BRef) -> bool {
+        self.chunks[r.chunk].blocks[r.block].ebb
+    }
     fn slot(&self, r: BRef) -> u64 {
         self.chunks[r.chunk].blocks[r.block].slot
     }
@@ -121,85 +145,147 @@ fn read_from(fx: &Fixture, db: &Db, slot: u64, hash: &[u8]) -> Result<Outcome, m
 }
 
 fn build_dbs(fx: &Fixture, scratch: &Scratch) -> Vec<Db> {
-    let mut dbs = vec![];
-    for i in 0..fx.chunks.len() {
-        for j in i..fx.chunks.len() {
-            let names: Vec<String> = (i..=j).map(|c| fx.chunks[c].name.clone()).collect();
-            let label = names.join("+");
-            let dir = scratch.0.join(&label);
-            if let Err(e) = std::fs::create_dir_all(&dir) {
-                scratch.fail(&format!("scratch db {label}: {e}"));
-            }
-            for c in i..=j {
-                let ch = &fx.chunks[c];
-                if let Err(e) = db::write_triplet(&dir, &ch.name, &ch.chunk, &ch.primary, &ch.secondary) {
-                    scratch.fail(&format!("scratch db {label}: {e}"));
-                }
-            }
-            let all = |c: usize| (0..fx.chunks[c].blocks.len()).map(move |b| BRef { chunk: c, block: b });
-            let imm: Vec<BRef> = (i..j).flat_map(all).collect();
-            let last: Vec<BRef> = all(j).collect();
-            dbs.push(Db { label, names, dir, imm, last });
+    // every triplet is written once and hard-linked into the databases
+    let pool = scratch.0.join("pool");
+    if let Err(e) = std::fs::create_dir_all(&pool) {
+        scratch.fail(&format!("scratch pool: {e}"));
+    }
+    for ch in &fx.chunks {
+        if let Err(e) = db::write_triplet(&pool, &ch.name, &ch.chunk, &ch.primary, &ch.secondary) {
+            scratch.fail(&format!("scratch pool {}: {e}", ch.name));
         }
     }
+    let (nb, nc) = (fx.nb, fx.chunks.len());
+    // Shelley family first (the original enumeration order), then Byron, then mixed
+    let mut ranges: Vec<(usize, usize, Family)> = vec![];
+    for (lo, hi, only, fam) in [(nb, nc, None, Family::Shelley), (0, nb, None, Family::Byron), (0, nc, Some(nb), Family::Mixed)] {
+        let mut r = vec![];
+        for i in lo..hi {
+            for j in i..hi {
+                // mixed = crossing the era boundary
+                if only.map(|b| i < b && j >= b).unwrap_or(true) {
+                    r.push((i, j, fam));
+                }
+            }
+        }
+        // new families: smaller databases first, so that the first witness of a fingerprint is a small one
+        if fam != Family::Shelley {
+            r.sort_by_key(|(i, j, _)| (j - i, *i));
+        }
+        ranges.extend(r);
+    }
+    let mut dbs = vec![];
+    for (i, j, family) in ranges {
+        let names: Vec<String> = (i..=j).map(|c| fx.chunks[c].name.clone()).collect();
+        let label = names.join("+");
+        let dir = scratch.0.join(&label);
+        if let Err(e) = std::fs::create_dir_all(&dir) {
+            scratch.fail(&format!("scratch db {label}: {e}"));
+        }
+        for c in i..=j {
+            if let Err(e) = db::link_triplet(&pool, &dir, &fx.chunks[c].name) {
+                scratch.fail(&format!("scratch db {label}: {e}"));
+            }
+        }
+        let all = |c: usize| (0..fx.chunks[c].blocks.len()).map(move |b| BRef { chunk: c, block: b });
+        let imm: Vec<BRef> = (i..j).flat_map(all).collect();
+        let last: Vec<BRef> = all(j).collect();
+        dbs.push(Db { label, names, dir, family, imm, last });
+    }
     dbs
+}
+
+/// Sampling of the Shelley-family blocks of a database: (absent stride, stride
+/// of the three hash-shape variants, fuzzy stride, exact stride). Byron blocks
+/// and both ends of every chunk are always taken.
+fn strides(db: &Db, thorough: bool) -> (usize, usize, usize, usize) {
+    match (db.family, thorough) {
+        (Family::Shelley, true) | (Family::Byron, _) => (1, 1, 1, 1),
+        // quick: absent points around every 4th block; the three hash-shape variants only on
+        // every 16th block; in the three-chunk database (whose two immutable chunks are also
+        // read in the two-chunk databases) fuzzy points only around every 4th block
+        (Family::Shelley, false) => (4, 16, if db.names.len() < 3 { 1 } else { 4 }, 1),
+        // the Shelley-family blocks are enumerated completely in their own family
+        (Family::Mixed, true) => (16, 16, 16, 16),
+        (Family::Mixed, false) => (64, 64, 64, 64),
+    }
 }
 
 fn cases_for(fx: &Fixture, dbi: usize, db: &Db, thorough: bool) -> Vec<Case> {
     let mut v = vec![];
     let n = db.imm.len();
     let slots: Vec<u64> = db.imm.iter().map(|r| fx.slot(*r)).collect();
+    let (st_absent, st_variants, st_fuzzy, st_exact) = strides(db, thorough);
+    let edge = |k: usize| k == 0 || k + 1 == n || db.imm[k - 1].chunk != db.imm[k].chunk || db.imm[k + 1].chunk != db.imm[k].chunk;
+    let take = |k: usize, stride: usize| fx.byron(db.imm[k]) || k % stride == 0 || edge(k);
+    let exists = |slot: u64, hash: &[u8]| db.imm.iter().any(|r| fx.slot(*r) == slot && fx.hash(*r)[..] == *hash);
     // ---- every block as exact point
-    for r in &db.imm {
-        v.push(Case { db: dbi, kind: Kind::Exact, slot: fx.slot(*r), hash: fx.hash(*r).to_vec(), how: "block" });
+    for (k, r) in db.imm.iter().enumerate() {
+        if take(k, st_exact) {
+            v.push(Case { db: dbi, kind: Kind::Exact, slot: fx.slot(*r), hash: fx.hash(*r).to_vec(), how: "block" });
+        }
     }
     // ---- absent exact points
+    let absent = |v: &mut Vec<Case>, slot: Option<u64>, hash: Vec<u8>, how: &'static str| {
+        // (an EBB and the main block after it may share a slot: such a pair is a block of the database)
+        if let Some(slot) = slot {
+            if !exists(slot, &hash) {
+                v.push(Case { db: dbi, kind: Kind::Absent, slot, hash, how });
+            }
+        }
+    };
     for (k, r) in db.imm.iter().enumerate() {
         let (s, h) = (fx.slot(*r), fx.hash(*r));
-        // quick: absent points around every 4th block (and both ends of every chunk); the
-        // three hash-shape variants only on every 16th block and both ends
-        let edge = k == 0 || k + 1 == n || db.imm[k - 1].chunk != r.chunk || db.imm[k + 1].chunk != r.chunk;
-        if !(thorough || k % 4 == 0 || edge) {
+        if !take(k, st_absent) {
             continue;
         }
-        let all_variants = thorough || k % 16 == 0 || edge;
         let mut flipped = h;
         flipped[0] ^= 1;
-        v.push(Case { db: dbi, kind: Kind::Absent, slot: s, hash: flipped.to_vec(), how: "right slot, hash with one bit flipped" });
-        v.push(Case { db: dbi, kind: Kind::Absent, slot: s + 1, hash: h.to_vec(), how: "slot+1, right hash" });
-        v.push(Case { db: dbi, kind: Kind::Absent, slot: s - 1, hash: h.to_vec(), how: "slot-1, right hash" });
-        if !all_variants {
+        absent(&mut v, Some(s), flipped.to_vec(), "right slot, hash with one bit flipped");
+        absent(&mut v, s.checked_add(1), h.to_vec(), "slot+1, right hash");
+        absent(&mut v, s.checked_sub(1), h.to_vec(), "slot-1, right hash");
+        if fx.byron(*r) {
+            // the neighbours inside the chunk: EBB <-> main block
+            if k + 1 < n && db.imm[k + 1].chunk == r.chunk && fx.ebb(*r) {
+                absent(&mut v, Some(s), fx.hash(db.imm[k + 1]).to_vec(), "slot of the EBB, hash of the main block after it");
+                absent(&mut v, Some(fx.slot(db.imm[k + 1])), h.to_vec(), "slot of the main block after the EBB, hash of the EBB");
+            }
+            // the EBB's secondary entry carries the epoch number where other entries carry the slot
+            if fx.ebb(*r) {
+                absent(&mut v, Some(s / db::EPOCH_SLOTS), h.to_vec(), "epoch number as slot, hash of the EBB");
+            }
+        }
+        if !take(k, st_variants) {
             continue;
         }
         let other = if k + 1 < n { db.imm[k + 1] } else if k > 0 { db.imm[k - 1] } else { db.last[0] };
-        v.push(Case { db: dbi, kind: Kind::Absent, slot: s, hash: fx.hash(other).to_vec(), how: "right slot, hash of another block" });
-        v.push(Case { db: dbi, kind: Kind::Absent, slot: s, hash: h[..31].to_vec(), how: "right slot, hash truncated to 31 bytes" });
+        absent(&mut v, Some(s), fx.hash(other).to_vec(), "right slot, hash of another block");
+        absent(&mut v, Some(s), h[..31].to_vec(), "right slot, hash truncated to 31 bytes");
         let mut long = h.to_vec();
         long.push(0);
-        v.push(Case { db: dbi, kind: Kind::Absent, slot: s, hash: long, how: "right slot, hash extended to 33 bytes" });
+        absent(&mut v, Some(s), long, "right slot, hash extended to 33 bytes");
     }
     // blocks of the last (not immutable, never served) chunk are absent from the database
     for (k, r) in db.last.iter().enumerate() {
-        if !(thorough || k % 16 == 0 || k + 1 == db.last.len()) {
+        let stride = if db.family == Family::Mixed { st_absent } else if thorough { 1 } else { 16 };
+        if !(fx.byron(*r) || k % stride == 0 || k + 1 == db.last.len()) {
             continue;
         }
-        v.push(Case { db: dbi, kind: Kind::Absent, slot: fx.slot(*r), hash: fx.hash(*r).to_vec(), how: "block of the last (non-immutable) chunk" });
+        absent(&mut v, Some(fx.slot(*r)), fx.hash(*r).to_vec(), "block of the last (non-immutable) chunk");
     }
     // ---- fuzzy points
+    let around = |x: u64| [x.saturating_sub(1), x, x.saturating_add(1)];
     let mut fuzzy: BTreeSet<u64> = BTreeSet::new();
     for (k, s) in slots.iter().enumerate() {
-        // quick: in the three-chunk database (whose two immutable chunks are also read in the
-        // two-chunk databases) only around every 4th block and both ends of every chunk
-        let edge = k == 0 || k + 1 == n || db.imm[k - 1].chunk != db.imm[k].chunk || db.imm[k + 1].chunk != db.imm[k].chunk;
-        if thorough || db.names.len() < 3 || k % 4 == 0 || edge {
-            fuzzy.extend([s - 1, *s, s + 1]);
+        if take(k, st_fuzzy) {
+            fuzzy.extend(around(*s));
         }
     }
     // chunk boundaries of every chunk of the DB (incl. the last one)
     for name in &db.names {
         let c: u64 = name.parse().unwrap_or(0);
-        for b in [c * 21600, (c + 1) * 21600] {
-            fuzzy.extend([b - 1, b, b + 1]);
+        for b in [c * db::EPOCH_SLOTS, (c + 1) * db::EPOCH_SLOTS] {
+            fuzzy.extend(around(b));
         }
     }
     // before / between / after
@@ -211,10 +297,22 @@ fn cases_for(fx: &Fixture, dbi: usize, db: &Db, thorough: bool) -> Vec<Case> {
         for w in slots.windows(2) {
             fuzzy.insert(w[0] + (w[1] - w[0]) / 2);
         }
-        // every slot of the epochs of the immutable chunks, stride 1
+        // Shelley family: every slot of the epochs of the immutable chunks, stride 1.
+        // Byron epochs (at most 3 main blocks each): a window around every block and chunk
+        // boundary plus a stride through the epoch; finer in the database of all Byron chunks
+        let full_byron = db.family == Family::Byron && db.names.len() == fx.nb;
+        let (window, stride) = if full_byron { (64u64, 16usize) } else { (8, 720) };
         for name in &db.names[..db.names.len() - 1] {
             let c: u64 = name.parse().unwrap_or(0);
-            fuzzy.extend(c * 21600..(c + 1) * 21600);
+            let epoch = c * db::EPOCH_SLOTS..(c + 1) * db::EPOCH_SLOTS;
+            if db.family == Family::Shelley {
+                fuzzy.extend(epoch);
+            } else if fx.chunks[..fx.nb].iter().any(|ch| ch.name == *name) {
+                fuzzy.extend(epoch.clone().step_by(stride));
+                for x in slots.iter().copied().filter(|x| epoch.contains(x)).chain([epoch.start, epoch.end]) {
+                    fuzzy.extend(x.saturating_sub(window)..=x + window);
+                }
+            }
         }
     }
     for s in fuzzy {
@@ -225,7 +323,7 @@ fn cases_for(fx: &Fixture, dbi: usize, db: &Db, thorough: bool) -> Vec<Case> {
 }
 
 fn case_json(db: &Db, c: &Case) -> Value {
-    json!({"db_chunks": db.names, "call": "read_blocks_from_point", "kind": format!("{:?}", c.kind), "slot": c.slot, "hash": hex::encode(&c.hash), "how": c.how})
+    json!({"db_chunks": db.names, "family": format!("{:?}", db.family), "call": "read_blocks_from_point", "kind": format!("{:?}", c.kind), "slot": c.slot, "hash": hex::encode(&c.hash), "how": c.how})
 }
 
 struct Viol {
@@ -236,14 +334,40 @@ struct Viol {
 
 pub fn run(ctx: Ctx) -> ! {
     let scratch = Scratch::new("c42");
-    let chunks: Vec<RefChunk> = db::CHUNKS
+    let shelley: Vec<RefChunk> = db::CHUNKS
         .iter()
         .map(|n| match db::load(std::path::Path::new(db::TEST_DATA), n, *n != "02019") {
             Ok(c) => c,
             Err(e) => scratch.fail(&format!("reference reader: {e}")),
         })
         .collect();
-    let fx = Fixture { chunks };
+    // the index writer used for the synthetic chunks reproduces the index files of the consistent fixtures
+    for c in shelley.iter().filter(|c| c.name != "02019") {
+        match db::build_indexes(c.number(), &c.chunk, &c.blocks, byron::REL_SLOTS) {
+            Ok((p, s)) if p == c.primary && s == c.secondary => {}
+            Ok(_) => scratch.fail(&format!("index writer does not reproduce the index files of fixture {}", c.name)),
+            Err(e) => scratch.fail(&format!("index writer on fixture {}: {e}", c.name)),
+        }
+    }
+    let bset = match byron::build() {
+        Ok(b) => b,
+        Err(e) => scratch.fail(&format!("Byron chunk set: {e}")),
+    };
+    let nb = bset.chunks.len();
+    let byron_layout: Vec<Value> = bset.chunks.iter().map(|c| json!({"chunk": c.name, "blocks": c.blocks.iter().map(|b| json!({"slot": b.slot, "ebb": b.ebb, "bytes": b.len})).collect::<Vec<_>>()})).collect();
+    // the Byron chunks precede the Shelley ones in chunk number and in slot
+    let mixed_monotone = match (bset.chunks.last(), shelley.first()) {
+        (Some(b), Some(s)) => b.number() < s.number() && b.blocks.last().map(|x| x.slot) < s.blocks.first().map(|x| x.slot),
+        _ => false,
+    };
+    if !mixed_monotone {
+        scratch.fail("Byron chunks do not precede the Shelley fixtures in slot order");
+    }
+    let (byron_derived, byron_derived_agree) = (bset.derived, bset.derived_agree);
+    let byron_sources: Vec<String> = bset.sources.iter().map(|s| s.label.clone()).collect();
+    let mut chunks = bset.chunks;
+    chunks.extend(shelley);
+    let fx = Fixture { chunks, nb };
     let dbs = build_dbs(&fx, &scratch);
 
     if let Some(p) = &ctx.replay {
@@ -299,6 +423,14 @@ pub fn run(ctx: Ctx) -> ! {
 
     // ---- point reads
     let cases: Vec<Case> = dbs.iter().enumerate().flat_map(|(i, d)| cases_for(&fx, i, d, ctx.thorough)).collect();
+    if std::env::var("C42_TIMING").is_ok() {
+        for f in [Family::Shelley, Family::Byron, Family::Mixed] {
+            let t = std::time::Instant::now();
+            let sub: Vec<&Case> = cases.iter().filter(|c| dbs[c.db].family == f).collect();
+            let _r: Vec<_> = sub.par_iter().map(|c| read_from(&fx, &dbs[c.db], c.slot, &c.hash)).collect();
+            eprintln!("TIMING {f:?}: {} cases {:?}", sub.len(), t.elapsed());
+        }
+    }
     let results: Vec<Result<Outcome, mc_core::panics::PanicInfo>> = cases.par_iter().map(|c| read_from(&fx, &dbs[c.db], c.slot, &c.hash)).collect();
     evals += cases.len() as u64;
 
@@ -307,8 +439,13 @@ pub fn run(ctx: Ctx) -> ! {
     let mut diag_outside: BTreeMap<String, u64> = BTreeMap::new();
     let mut distinct_expected: BTreeSet<(usize, Option<usize>)> = BTreeSet::new();
     let mut cross_chunk_fuzzy = 0u64;
+    let mut cross_chunk_fuzzy_byron = 0u64;
+    let (mut ebb_start_points, mut ebb_start_points_ok, mut fuzzy_answered_by_ebb, mut exact_sharing_slot, mut byron_exact_ok) = (0u64, 0u64, 0u64, 0u64, 0u64);
+    let mut fam_cases: BTreeMap<&'static str, u64> = BTreeMap::new();
+    let mut fam_samples: BTreeSet<&'static str> = BTreeSet::new();
     for (c, r) in cases.iter().zip(results.iter()) {
         let db = &dbs[c.db];
+        *fam_cases.entry(match db.family { Family::Shelley => "shelley", Family::Byron => "byron", Family::Mixed => "mixed" }).or_default() += 1;
         let n = db.imm.len();
         let cj = case_json(db, c);
         let out = match r {
@@ -331,17 +468,39 @@ pub fn run(ctx: Ctx) -> ! {
         };
         match c.kind {
             Kind::Exact => {
-                let k = db.imm.iter().position(|r| fx.slot(*r) == c.slot).unwrap();
+                let k = db.imm.iter().position(|r| fx.slot(*r) == c.slot && fx.hash(*r)[..] == c.hash[..]).unwrap();
                 distinct_expected.insert((c.db, Some(k)));
                 nontrivial.insert((c.db, 0, c.slot, c.hash.clone()));
+                let is_ebb = fx.ebb(db.imm[k]);
+                // the block before it in the chain has the same slot (an EBB and the first main block of its epoch)
+                let shares_slot = k > 0 && fx.slot(db.imm[k - 1]) == c.slot;
+                ebb_start_points += is_ebb as u64;
+                exact_sharing_slot += shares_slot as u64;
                 if *out != Outcome::Suffix(k) {
                     viols.push(Viol {
-                        fp: format!("C42:exact-point:{}", match out { Outcome::Err(e) => format!("error-{e}"), Outcome::Suffix(_) => "wrong-suffix".into(), Outcome::Other(_) => "not-a-suffix".into() }),
-                        what: format!("db {}: reading from existing block {k} (slot {}) gave {out:?}, expected the suffix from block {k}", db.label, c.slot),
+                        fp: format!(
+                            "C42:exact-point:{}{}",
+                            match out { Outcome::Err(e) => format!("error-{e}"), Outcome::Suffix(_) => "wrong-suffix".into(), Outcome::Other(_) => "not-a-suffix".into() },
+                            if shares_slot { ":block-in-the-slot-of-the-preceding-ebb" } else { "" }
+                        ),
+                        what: format!(
+                            "db {}: reading from existing block {k} (slot {}{}) gave {out:?}, expected the suffix from block {k}",
+                            db.label,
+                            c.slot,
+                            if shares_slot { ", main block in the same slot as the epoch boundary block before it" } else if is_ebb { ", epoch boundary block" } else { "" }
+                        ),
                         replay: cj,
                     });
-                } else if samples.len() < 3 && k % 401 == 7 {
-                    samples.push(json!({"case": cj, "outcome": format!("{out:?}")}));
+                } else {
+                    ebb_start_points_ok += is_ebb as u64;
+                    byron_exact_ok += fx.byron(db.imm[k]) as u64;
+                    if samples.len() < 3 && k % 401 == 7 {
+                        samples.push(json!({"case": cj, "outcome": format!("{out:?}")}));
+                    } else if is_ebb && k > 0 && fam_samples.insert(if db.family == Family::Byron { "byron-ebb-exact" } else { "mixed-ebb-exact" }) {
+                        samples.push(json!({"case": cj, "outcome": format!("{out:?}"), "note": "exact start at an epoch boundary block"}));
+                    } else if db.family == Family::Mixed && !fx.byron(db.imm[k]) && fam_samples.insert("mixed-shelley-exact") {
+                        samples.push(json!({"case": cj, "outcome": format!("{out:?}"), "note": "exact start in the Shelley part of a mixed database"}));
+                    }
                 }
             }
             Kind::Fuzzy => {
@@ -352,6 +511,13 @@ pub fn run(ctx: Ctx) -> ! {
                 let chunk_of_slot = c.slot / 21600;
                 if fx.chunks[db.imm[k].chunk].number() != chunk_of_slot {
                     cross_chunk_fuzzy += 1;
+                    cross_chunk_fuzzy_byron += fx.byron(db.imm[k]) as u64;
+                }
+                if fx.ebb(db.imm[k]) {
+                    fuzzy_answered_by_ebb += 1;
+                    if *out == Outcome::Suffix(k) && fx.slot(db.imm[k]) == c.slot && k + 1 < n && fx.slot(db.imm[k + 1]) == c.slot && fam_samples.insert("fuzzy-shared-slot") {
+                        samples.push(json!({"case": cj, "outcome": format!("{out:?}"), "note": "fuzzy point on a slot shared by an EBB and a main block: suffix starts at the EBB"}));
+                    }
                 }
                 if *out != Outcome::Suffix(k) {
                     viols.push(Viol {
@@ -381,6 +547,8 @@ pub fn run(ctx: Ctx) -> ! {
                     Outcome::Err(_) => {
                         if samples.len() < 8 && c.slot % 1013 == 5 {
                             samples.push(json!({"case": cj, "outcome": format!("{out:?}")}));
+                        } else if c.how.contains("EBB") && fam_samples.insert(c.how) {
+                            samples.push(json!({"case": cj, "outcome": format!("{out:?}")}));
                         }
                     }
                     ok => {
@@ -401,7 +569,7 @@ pub fn run(ctx: Ctx) -> ! {
     }
     for (i, db) in dbs.iter().enumerate() {
         per_db.push(json!({
-            "chunks": db.names, "immutable_blocks": db.imm.len(),
+            "chunks": db.names, "family": format!("{:?}", db.family), "immutable_blocks": db.imm.len(),
             "exact": cases.iter().filter(|c| c.db == i && c.kind == Kind::Exact).count(),
             "fuzzy_in_range": cases.iter().filter(|c| c.db == i && c.kind == Kind::Fuzzy).count(),
             "fuzzy_outside_diagnostic": cases.iter().filter(|c| c.db == i && c.kind == Kind::FuzzyOutside).count(),
@@ -410,13 +578,30 @@ pub fn run(ctx: Ctx) -> ! {
     }
 
     // ---- vacuity guards
-    let total_imm: usize = dbs.iter().map(|d| d.imm.len()).sum();
-    let exact_ok = cases.iter().zip(results.iter()).filter(|(c, r)| c.kind == Kind::Exact && matches!(r, Ok(Outcome::Suffix(_)))).count();
-    if dbs.len() != 6 || total_imm != 864 + 913 + 1777 || counts.get("Exact").copied().unwrap_or(0) as usize != total_imm {
+    let fam = |f: Family| dbs.iter().enumerate().filter(move |(_, d)| d.family == f);
+    let imm_of = |f: Family| fam(f).map(|(_, d)| d.imm.len()).sum::<usize>();
+    let exact_of = |f: Family, byron_only: bool| cases.iter().filter(|c| c.kind == Kind::Exact && dbs[c.db].family == f && (!byron_only || c.slot < (fx.chunks[nb - 1].number() + 1) * db::EPOCH_SLOTS)).count();
+    let total_imm = imm_of(Family::Shelley);
+    let exact_ok = cases.iter().zip(results.iter()).filter(|(c, r)| c.kind == Kind::Exact && dbs[c.db].family == Family::Shelley && matches!(r, Ok(Outcome::Suffix(_)))).count();
+    if fam(Family::Shelley).count() != 6 || total_imm != 864 + 913 + 1777 || exact_of(Family::Shelley, false) != total_imm {
         scratch.fail(&format!("C42 enumeration incomplete: dbs={} immutable blocks={total_imm}", dbs.len()));
+    }
+    let byron_blocks_in_mixed: usize = fam(Family::Mixed).map(|(_, d)| d.imm.iter().filter(|r| fx.byron(**r)).count()).sum();
+    if nb < 4
+        || !fx.chunks[..nb].iter().any(|c| c.blocks.iter().filter(|b| !b.ebb).count() >= 2)
+        || fx.chunks[..nb].iter().any(|c| !c.blocks[0].ebb || c.blocks[1..].iter().any(|b| b.ebb))
+        || fam(Family::Byron).count() != nb * (nb + 1) / 2
+        || fam(Family::Mixed).count() != nb * 3
+        || exact_of(Family::Byron, false) != imm_of(Family::Byron)
+        || exact_of(Family::Mixed, true) != byron_blocks_in_mixed
+    {
+        scratch.fail(&format!("C42 Byron family incomplete: {nb} Byron chunks, dbs={}, exact points {} of {} / {} of {}", dbs.len(), exact_of(Family::Byron, false), imm_of(Family::Byron), exact_of(Family::Mixed, true), byron_blocks_in_mixed));
     }
     if exact_ok == 0 || counts.get("Fuzzy").copied().unwrap_or(0) == 0 || counts.get("Absent").copied().unwrap_or(0) == 0 || cross_chunk_fuzzy == 0 {
         scratch.fail("C42 vacuous: no accepted exact point / no fuzzy point / no absent point / no fuzzy point crossing a chunk boundary");
+    }
+    if ebb_start_points == 0 || ebb_start_points_ok == 0 || byron_exact_ok == 0 || fuzzy_answered_by_ebb == 0 || cross_chunk_fuzzy_byron == 0 || exact_sharing_slot == 0 {
+        scratch.fail("C42 vacuous on the Byron family: no (accepted) EBB start point / no fuzzy point answered by an EBB / none crossing a chunk boundary / no main block in the slot of its EBB");
     }
 
     // first witness per fingerprint = first in enumeration order (deterministic; results were collected in case order)
@@ -434,9 +619,24 @@ pub fn run(ctx: Ctx) -> ! {
         "point_reads_by_kind" => counts,
         "distinct_expected_outcomes" => distinct_expected.len(),
         "fuzzy_points_answered_from_a_later_chunk" => cross_chunk_fuzzy,
+        "byron_databases" => fam(Family::Byron).count(),
+        "mixed_databases" => fam(Family::Mixed).count(),
+        "byron_cases" => fam_cases.get("byron").copied().unwrap_or(0),
+        "mixed_cases" => fam_cases.get("mixed").copied().unwrap_or(0),
+        "shelley_cases" => fam_cases.get("shelley").copied().unwrap_or(0),
+        "ebb_start_points" => ebb_start_points,
+        "ebb_start_points_answered_with_the_reference_suffix" => ebb_start_points_ok,
+        "byron_block_start_points_answered_with_the_reference_suffix" => byron_exact_ok,
+        "exact_points_on_a_main_block_in_the_slot_of_its_ebb" => exact_sharing_slot,
+        "fuzzy_points_answered_by_an_ebb" => fuzzy_answered_by_ebb,
+        "byron_fuzzy_points_answered_from_a_later_chunk" => cross_chunk_fuzzy_byron,
+        "byron_chunk_layout" => byron_layout,
+        "byron_source_blocks" => byron_sources,
+        "byron_derived_blocks_pallas_decodes_to_reference_slot_and_hash" => format!("{byron_derived_agree} of {byron_derived} (diagnostic)"),
+        "mixed_database_shelley_block_stride" => if ctx.thorough { "every 16th Shelley-family block and both ends of each chunk (exact, fuzzy, absent); every Byron block" } else { "every 64th Shelley-family block and both ends of each chunk; every Byron block" },
         "diagnostic_fuzzy_points_outside_block_range" => diag_outside,
-        "absent_points" => if ctx.thorough { "per block: flipped hash bit, slot+1, slot-1, another block's hash, 31-byte hash, 33-byte hash; every block of the last chunk" } else { "on every 4th block and both ends of each chunk: flipped hash bit, slot+1, slot-1; on every 16th block and the ends also another block's hash, 31-byte hash, 33-byte hash; every 16th block of the last chunk" },
-        "fuzzy_stride" => if ctx.thorough { "every slot of the epochs of the immutable chunks + every block slot +-1, midpoints, chunk boundaries" } else { "two-chunk databases: every block slot +-1; three-chunk database: every 4th block slot +-1 and both ends of each chunk; chunk boundaries +-1" },
+        "absent_points" => if ctx.thorough { "per block: flipped hash bit, slot+1, slot-1, another block's hash, 31-byte hash, 33-byte hash; every block of the last chunk; per EBB also: its slot with the hash of the main block after it, that block's slot with the EBB's hash (unless they share the slot), the epoch number as slot" } else { "on every 4th Shelley-family block and both ends of each chunk: flipped hash bit, slot+1, slot-1; on every 16th block and the ends also another block's hash, 31-byte hash, 33-byte hash; every 16th block of the last chunk; every Byron block: all six; per EBB also: its slot with the hash of the main block after it, that block's slot with the EBB's hash (unless they share the slot), the epoch number as slot" },
+        "fuzzy_stride" => if ctx.thorough { "Shelley family: every slot of the epochs of the immutable chunks + every block slot +-1, midpoints, chunk boundaries; Byron epochs: every block slot and chunk boundary +-8 and every 720th slot, in the database of all Byron chunks +-64 and every 16th slot; midpoints" } else { "two-chunk databases: every block slot +-1; three-chunk database: every 4th block slot +-1 and both ends of each chunk; chunk boundaries +-1; Byron blocks: every block slot +-1" },
     };
     ctx.finish(
         Level::Exploration,
@@ -446,7 +646,10 @@ pub fn run(ctx: Ctx) -> ! {
             "the last chunk of a database is not immutable and is never served (build_stack_of_chunk_names); 'every block of its immutable chunks' = all chunks but the last",
             "fuzzy points before the first or after the last immutable block are outside 'every slot in and between blocks' and only logged",
             "fixture 02019 is not a consistent triplet (5 blocks in the chunk file, 15 secondary entries, 1 occupied primary slot); in every contiguous subset that contains it it is the last chunk, which pallas never opens, so it only contributes absent points and never served blocks",
-            "all test blocks are Babbage-era; Byron/EBB chunks (equal slots) are not in the fixtures",
+            "the Shelley-family test blocks are Babbage-era; the Byron family is synthetic: one chunk per epoch = that epoch's EBB (genesis.block with the epoch field of its consensus data re-encoded) + the byronN.block fixtures of the epoch in slot order, full-size primary index (21601 relative slots, EBB in relative slot 0), secondary entries carrying the epoch number for the EBB; the index writer is checked to reproduce the index files of fixtures 01285 and 01836 byte for byte",
+            "one synthetic main block (byron3.block with its slot-in-epoch re-encoded from 1 to 0) sits in the same absolute slot as the EBB of its chunk; reference order 'EBB before the main block of the same slot', a fuzzy point on that slot starts at the EBB, both (slot, hash) pairs are existing points",
+            "block signatures, body proofs and prev-hash links of the synthetic Byron chain are not consistent (none of the readers under test looks at them)",
+            "in mixed databases the Shelley-family blocks are sampled (they are enumerated completely in their own family); the slots of a Byron epoch (at most 3 main blocks) are not all taken as fuzzy points: windows around blocks and chunk boundaries plus a stride (see fuzzy_stride)",
         ],
     )
 }
